@@ -26,14 +26,14 @@ chk(
 chk(
     "C12",
     "bounded-exhaustive token and frame enumeration + seeded Hypothesis author lists + coverage-guided fuzzing (atheris, oracle inside the target); conservation/idempotence invariants and differential against an independent word-based reference splitter",
-    "Exploration: every string spelled by <= 5 (quick) / <= 6 (thorough) tokens of a 16-token alphabet covering every state of the and-scanner (words, and/And/AND, partial an/d, blanks, tab, newline, '~', braces, comma, escapes, lone backslash) is checked for conservation and idempotence, and - when brace-balanced - for equality with an independent reference splitter that was first validated on the repository's 44 BibTeX-derived cases; long random author lists and the SeparateCoAuthors/MergeCoAuthors middlewares (default and custom name_fields, in-place and copy) are searched with seeded Hypothesis.",
+    "Exploration: every string spelled by <= 5 (quick) / <= 6 (thorough) tokens of a 16-token alphabet covering every state of the and-scanner (words, and/And/AND, partial an/d, blanks, tab, newline, '~', braces, comma, escapes, lone backslash) is checked for conservation and idempotence, and - when brace-balanced - for equality with an independent reference splitter that was first validated on the repository's 44 BibTeX-derived cases; token sequences inside five frames, long random author lists and the SeparateCoAuthors/MergeCoAuthors middlewares (default and custom name_fields, in-place and copy, fresh and pre-used instances) are searched; one worker interleaves the splitter with the name parser of the same module; an atheris campaign runs the same oracle inside the target.",
     "Trusted: pbt/refnames.py split_names (word-based reference), the conservation regex. Exact rule only on brace-balanced input, as the property states.",
     "DESIGN.md 4 C12",
 )
 chk(
     "C13",
     "bounded-exhaustive token- and word-level enumeration of names + seeded Hypothesis + coverage-guided fuzzing (atheris, oracle inside the target); differential against an executable transcription of BibTeX's name rules validated on the repo corpus; conservation and history-independence invariants",
-    "Exploration: every name of <= 5/6 tokens over a 13-token alphabet and every name of 1..4/5 words over 8 word classes with every separator choice (<= 2 commas) is compared with an executable transcription of the First/von/Last/Jr rules of the statement (validity verdict and the four lists) that is first validated on the repository's 149+11 BibTeX-derived cases; conservation per comma section is checked independently of the reference; SplitNameParts is checked to turn invalid names into a MiddlewareErrorBlock retaining the entry.",
+    "Exploration: every name of <= 5/6 tokens over a 13-token alphabet and every name of 1..4/5 words over 8 word classes with every separator choice (<= 2 commas) is compared with an executable transcription of the First/von/Last/Jr rules of the statement (validity verdict and the four lists) that is first validated on the repository's 149+11 BibTeX-derived cases; conservation per comma section is checked independently of the reference; the returned NameParts is altered and the call repeated (results must not be shared between calls); SplitNameParts is checked to turn invalid names into a MiddlewareErrorBlock retaining the entry; an atheris campaign runs the same oracle inside the target.",
     "Trusted: pbt/refnames.py tokenize_name/word_case/parse_name. Word case is left unspecified (partition not compared) for shapes the statement does not define (special-character look-alikes nested in ordinary groups etc.).",
     "DESIGN.md 4 C13",
 )
@@ -56,7 +56,7 @@ chk(
 chk(
     "C19",
     "model-based testing of call histories against an insertion-ordered dict (exhaustive + Hypothesis lists + rule-based state machine); metamorphic single-attribute perturbation for structural equality",
-    "Exploration: every history of depth <= 3/4 over 25 mapping operations on keys {a, b, A} from three start entries, random histories of <= 30 operations over a 6-key pool (case variants, hyphen, empty key) and a Hypothesis rule-based state machine are compared step by step with a Python dict of key -> Field (return values, KeyError, field order, fields_dict, items(), ENTRYTYPE/ID); equality: every block and field of parsed documents and of generated block specs must equal its copy, deep copy and a twin rebuilt through the public constructors, and must differ (both directions, == and !=) from every single-attribute perturbation incl. metadata and the Explicit/Implicit class swap.",
+    "Exploration: every history of depth <= 3/4 over 25 mapping operations on keys {a, b, A} from three start entries, random histories of <= 30 operations over a 6-key pool (case variants, hyphen, empty key) and a Hypothesis rule-based state machine are compared step by step with a Python dict of key -> Field (return values, KeyError, field order, fields_dict, items(), ENTRYTYPE/ID; every Field object ever stored must keep its content); equality: every block and field of parsed documents and of generated block specs must equal its copy, deep copy and a twin rebuilt through the public constructors, and must differ (both directions, == and !=) from every single-attribute perturbation incl. metadata and the Explicit/Implicit class swap.",
     "Trusted: Python dict as the reference mapping; perturbation builder uses only public constructors/setters. `del entry[absent]` may raise or not.",
     "DESIGN.md 4 C19",
 )
@@ -79,7 +79,7 @@ chk(
 chk(
     "C06",
     "differential against a reference renderer written from the statement + renderer-independent column/comma predicates, over finite format grids and seeded Hypothesis libraries x formats",
-    "Exploration: the output of writer.write / write_string(unparse_stack=[]) is compared byte for byte with a reference renderer on a finite grid (3 libraries x value_column 0..40,'auto' x 4 indents x comma x 3 separators x 2 failed-block comments) and on random libraries of every block kind (incl. plain / duplicate-key / duplicate-field / middleware-error failed blocks with multi-line raw) x random formats; independently of the renderer, on single-line values every field must be on one line as indent+key+pad+' = '+value with the value at column len(indent)+value_column iff the key is short enough, 'auto' must give one common minimal column over all entries, the comma rule must hold, no non-blank separator may follow the last block, format object and library must be unchanged, and the value_column setter must reject exactly negative ints and non-'auto' non-ints.",
+    "Exploration: the output of writer.write / write_string(unparse_stack=[]) is compared byte for byte with a reference renderer on a finite grid (3 libraries x value_column 0..40,'auto' x 4 indents x comma x 3 separators x 2 failed-block comments) and on random libraries of every block kind (incl. plain / duplicate-key / duplicate-field / middleware-error failed blocks with multi-line raw) x random formats; independently of the renderer, on single-line values every field must be on one line as indent+key+pad+' = '+value with the value at column len(indent)+value_column iff the key is short enough, 'auto' must give one common minimal column over all entries, the comma rule must hold, no non-blank separator may follow the last block, format object and library must be unchanged, one format object re-used for several writes with its settings changed in between must obey the current settings each time, and the value_column setter must reject exactly negative ints and non-'auto' non-ints.",
     "Trusted: pbt/props/C06.py ref_render and the column predicates. Failed blocks with raw=None and parsing_failed_comment strings with other placeholders are outside the generated domain.",
     "DESIGN.md 4 C06",
 )
@@ -116,7 +116,7 @@ chk(
 chk(
     "C09",
     "constructive ground truth over grammar derivations with colliding key pools (bounded-exhaustive item sequences + seeded Hypothesis)",
-    "Exploration: every document of <= 5 (quick) / <= 6 (thorough) items over seven item kinds (entries a/b, entry a with a repeated field, zero-field entry a, strings a/b, comment) and random derivations whose entry, string and field keys come from pools of 2-4 names (case variants, names shared between entries and strings) are parsed with the bare splitter and with default parse_string; expected from the derivation alone: one block per item, first registrable occurrence live and identical to the object in entries_dict/strings_dict, every later occurrence a DuplicateBlockKeyBlock at its own position exposing key, live block and the complete duplicate (all fields, order, verbatim values), repeated field keys -> DuplicateFieldKeyBlock with exactly the repeated keys, all occurrences kept, key not registered.",
+    "Exploration: every document of <= 5 (quick) / <= 6 (thorough) items over seven item kinds (entries a/b, entry a with a repeated field, zero-field entry a, strings a/b, comment) and random derivations whose entry, string and field keys come from pools of 2-4 names (case variants, names shared between entries and strings) are parsed with the bare splitter and with default parse_string; expected from the derivation alone: one block per item, first registrable occurrence live and identical to the object in entries_dict/strings_dict, every later occurrence a DuplicateBlockKeyBlock at its own position exposing key, live block and the complete duplicate (all fields, order, verbatim values), repeated field keys -> DuplicateFieldKeyBlock with exactly the repeated keys, all occurrences kept, key not registered; every derivation is additionally parsed in two halves through the `library=` argument and must give the same result.",
     "Trusted: pbt/bibgen.py render() as ground truth. Values of live blocks are compared verbatim only for the bare splitter (enclosure stripping is C10's subject).",
     "DESIGN.md 4 C09",
 )
@@ -139,7 +139,7 @@ chk(
 chk(
     "C05",
     "round trip parse -> write -> parse -> write over seeded Hypothesis grammar derivations x BibtexFormat settings and recogniser-accepted frame enumerations; content equality, byte fixpoint, and a constructive prediction of the first parse",
-    "Exploration: random derivations of the dialect grammar with unique keys (all block kinds, nested braces, quoted values, concatenations, numbers, multi-line values, free text between blocks) and reference-dense documents (resolved, unresolved and later-defined @string references) x random formats (indent [ \\t]{0,8}, value_column 0..40 and 'auto', trailing comma, whitespace-only separators incl. the empty one and CRLF), plus every recogniser-accepted text of <= 4/5 frame tokens in four frames x 6 fixed formats: the content of the first parse must equal the content predicted from the derivation alone (so that a symmetric corruption cannot cancel out), the re-parsed written text must have the same blocks with the same types, keys, field order, values and comment/preamble/string text and no failed block, and writing it again must reproduce the first output byte for byte.",
+    "Exploration: random derivations of the dialect grammar with unique keys (all block kinds, nested braces, quoted values, concatenations, numbers, multi-line values, free text between blocks) and reference-dense documents (resolved, unresolved and later-defined @string references) x random formats (indent [ \\t]{0,8}, value_column 0..40 and 'auto', trailing comma, whitespace-only separators incl. the empty one and CRLF), plus every recogniser-accepted text of <= 4/5 frame tokens in four frames x 6 fixed formats: the content of the first parse must equal the content predicted from the derivation alone (so that a symmetric corruption cannot cancel out), write_string must leave the parsed library's content as it was, the re-parsed written text must have the same blocks with the same types, keys, field order, values and comment/preamble/string text and no failed block, and writing it again must reproduce the first output byte for byte.",
     "Trusted: pbt/bibgen.py ground truth, strip1 (lexical one-layer strip) and the C11 resolution rule for the prediction. Separators with non-blank characters are C06's subject.",
     "DESIGN.md 4 C05",
 )
@@ -209,7 +209,7 @@ def main():
             )
         ],
         checks=checks,
-        notes="Runner: ./check <id> --tier quick|thorough ; VERIF_SEED and VERIF_TIER honoured; exit 0/1/2 as described in DESIGN.md 2.4. Known findings: /verif/known_findings.json. VERIF_REPO=<dir> points the checks at a scratch copy of the repository (used only for sensitivity runs; default /repo).",
+        notes="History independence: for half of the cases of C10-C13, C15-C18 the middleware instance has already transformed an unrelated library (libgen.maybe_preuse). Runner: ./check <id> --tier quick|thorough ; VERIF_SEED and VERIF_TIER honoured; exit 0/1/2 as described in DESIGN.md 2.4. Known findings: /verif/known_findings.json. VERIF_REPO=<dir> points the checks at a scratch copy of the repository (used only for sensitivity runs; default /repo).",
         not_applicable=[dict(property_id=p, reason=NOT_YET) for p in ALL if p not in CHECKS],
     )
     path = os.path.join(HERE, "MANIFEST.json")
